@@ -1838,7 +1838,7 @@ func runC05(c *core.Ctx) {
 	c.MinInstances("C05-SELECT", 20)
 	c.MinInstances("C05-HELPERS", 4)
 	c.MinInstances("C05-FIXTURE", 3)
-	c.MinInstances("C05-GSM7", 200)
+	c.MinInstances("C05-GSM7", 120)
 	importRules(c, "C08", "C05-GSM7", nil)
 	c.Trust("x/text transformers: an Encoder fails on runes its table lacks unless wrapped by ReplaceUnsupported; NewEncoder/NewDecoder of one encoding are mutually inverse on its repertoire",
 		"utf16.Encode and the x/text UTF-16 encoder agree on valid UTF-8", "C08 for the local GSM 7-bit tables, Pack/Unpack and the gsm7 transformer")
